@@ -430,6 +430,10 @@ class Unit:
         for c in n.inner:
             if c.kind == 'FieldDecl':
                 fields.append((c.name, c.type, bool(c.d.get('isBitfield'))))
+            elif c.kind == 'EnumDecl':
+                self._reg_enum(c)          # enum declared inside a struct
+            elif c.kind == 'RecordDecl':
+                self._reg_record(c)
         if not n.d.get('completeDefinition') and not fields:
             return
         self._anon_rec[n.id] = fields
